@@ -180,7 +180,9 @@ class AstAnalyzer:
                 curr = live_out
                 while curr != prev:
                     prev = curr
-                    curr = visit_block(stmt.body, prev).difference({p_loop_var})
+                    # The body may execute zero times: whatever is live after the loop
+                    # is also live before it.
+                    curr = live_out | visit_block(stmt.body, prev).difference({p_loop_var})
                 return curr
             if isinstance(stmt, ast.While):
                 cond_vars = _used_vars(stmt.test)
@@ -188,7 +190,7 @@ class AstAnalyzer:
                 curr = live_out | cond_vars
                 while curr != prev:
                     prev = curr
-                    curr = visit_block(stmt.body, prev) | cond_vars
+                    curr = live_out | visit_block(stmt.body, prev) | cond_vars
                 return curr
             if isinstance(stmt, ast.Break):
                 # The following is sufficient for the current restricted usage, where
